@@ -288,6 +288,7 @@ def s_base(draw, max_len=5, locking=False):
     mdl = M.Model(case)
     case['load'] = G.s_load(draw, mdl, kinds=('const', 'speed'))
     case['init'] = G.s_init(draw, mdl, at_rest=True)
+    G.add_variants(draw, case)
     return case, mdl
 
 
